@@ -520,6 +520,15 @@ def _build_roc(inp):
         if not _finite(o[0] + o[1] + o[2]):
             pre.append(Issue("PROPFAIL", "roc-finite", f"roc({mode}={pts}) non-finite: {o}", "roc/finite"))
             return _empty(inp, pre, tags)
+        # the caller refills its grid buffer for the next curve while this one is still in use: the curve owns its arrays
+        for a_ in kw.values():
+            a_[:] = 0.5 * a_[::-1].copy() + 0.01
+        o_after = [np.asarray(R.fnr, dtype=float).reshape(-1).tolist(), np.asarray(R.fpr, dtype=float).reshape(-1).tolist(),
+                   np.asarray(R.thresholds, dtype=float).reshape(-1).tolist()]
+        if o_after != o:
+            pre.append(Issue("PROPFAIL", "roc-consistent", f"roc({mode}=grid): after the caller overwrote its grid array in place the curve "
+                             f"changed from fnr {o[0][:4]} fpr {o[1][:4]} to fnr {o_after[0][:4]} fpr {o_after[1][:4]} (thresholds "
+                             f"{o_after[2][:4]}): the rates are no longer those of its thresholds", "roc/kept-caller-array"))
         args.update(o_fnr=ql(o[0]), o_fpr=ql(o[1]), o_thr=ql(o[2]))
         zs = [_std(t, mu_pos, sp) for t in o[2]] + [_std(t, mu_neg, sn) for t in o[2]]
         # end points (outside the rational model): rates 0 and 1 come back exactly
